@@ -81,7 +81,19 @@ fn check_pairs(ps: Pairs<Rule>, f: &[T], input: &str, depth: usize) -> Result<()
     if got.len() != fl.len() { return Err("flatten count".into()); }
     for (p, t) in got.iter().zip(fl.iter()) { same(p, t, input)?; }
     let gotr: Vec<_> = ps.clone().flatten().rev().collect();
+    if gotr.len() != fl.len() { return Err("flatten().rev() count".into()); }
     for (p, t) in gotr.iter().zip(fl.iter().rev()) { same(p, t, input)?; }
+    // flatten in every interleaving of next / next_back (bit i of the schedule: take step i from the back)
+    for sched in 0..(1u32 << fl.len().min(6)) {
+        let mut it = ps.clone().flatten(); let (mut lo, mut hi) = (0usize, fl.len());
+        for step in 0..fl.len() {
+            let back = step < 6 && (sched >> step) & 1 == 1;
+            let (p, t) = if back { hi -= 1; (it.next_back(), fl[hi]) } else { lo += 1; (it.next(), fl[lo - 1]) };
+            let p = p.ok_or_else(|| format!("flatten(): {} returns None at step {} of schedule {:b} although {} pairs are left", if back { "next_back" } else { "next" }, step, sched, hi + 1 - lo))?;
+            same(&p, t, input).map_err(|e| format!("flatten() schedule {:b} step {}: {}", sched, step, e))?;
+        }
+        if it.next().is_some() || it.next_back().is_some() { return Err(format!("flatten() yields after the end (schedule {:b})", sched)); }
+    }
     // node tags: find_tagged is the flattened (pre-order) sequence filtered by tag, find_first_tagged its first element
     for tg in ["t", "u"] {
         let want: Vec<&&T> = fl.iter().filter(|t| TAGS[t.tag as usize] == Some(tg)).collect();
